@@ -37,7 +37,10 @@ def main():
         "none": lambda: NoClustering(),
         "single": lambda: SingleClustering(),
     }
+    only = sys.argv[3].split(",") if len(sys.argv) > 3 else None
     for name, mk in strategies.items():
+        if only and name not in only:
+            continue
         syn = Synthesizer(df, anonymization_params=ap, clustering=mk())
         try:
             res = syn.sample()
